@@ -271,7 +271,7 @@ def r4(ctx):
             ctx.ok(g, f'stateful entries {sorted(stateful_keys)} never consumed')
             continue
         for fi, ev in mine:
-            reach = _reachable_keys(fi, g, set(info['elems']) | _table_keys(m, g))
+            reach = _reachable_keys(fi, g, set(info['elems']) | _table_keys(m, g), m)
             hot = reach & stateful_keys if reach is not None else stateful_keys
             if hot:
                 ctx.bad(fi.qualname.split(':')[1], f'iterator:{g.split(".")[-1]}',
@@ -294,17 +294,17 @@ def _table_keys(m, g):
     return keys
 
 
-def _key_test(t, keyvar, key, local_defs, depth=0):
+def _key_test(t, keyvar, key, local_defs, depth=0, consts=None):
     """truth of test `t` when keyvar == key: True / False / None (does not depend on the key or not understood)."""
     if depth > 4:
         return None
     if isinstance(t, ast.Name) and t.id in local_defs:
-        return _key_test(local_defs[t.id], keyvar, key, local_defs, depth + 1)
+        return _key_test(local_defs[t.id], keyvar, key, local_defs, depth + 1, consts)
     if isinstance(t, ast.UnaryOp) and isinstance(t.op, ast.Not):
-        v = _key_test(t.operand, keyvar, key, local_defs, depth + 1)
+        v = _key_test(t.operand, keyvar, key, local_defs, depth + 1, consts)
         return None if v is None else (not v)
     if isinstance(t, ast.BoolOp):
-        vs = [_key_test(x, keyvar, key, local_defs, depth + 1) for x in t.values]
+        vs = [_key_test(x, keyvar, key, local_defs, depth + 1, consts) for x in t.values]
         if isinstance(t.op, ast.And):
             return False if any(v is False for v in vs) else (True if all(v is True for v in vs) else None)
         return True if any(v is True for v in vs) else (False if all(v is False for v in vs) else None)
@@ -314,13 +314,33 @@ def _key_test(t, keyvar, key, local_defs, depth=0):
                 and all(isinstance(e, ast.Constant) for e in c.elts):
             r = key in {e.value for e in c.elts}
             return r if isinstance(op, ast.In) else not r
+        if isinstance(op, (ast.In, ast.NotIn)) and isinstance(c, ast.Name) and consts and c.id in consts:
+            r = key in consts[c.id]            # a module-level constant table
+            return r if isinstance(op, ast.In) else not r
         if isinstance(op, (ast.Eq, ast.NotEq)) and isinstance(c, ast.Constant):
             r = key == c.value
             return r if isinstance(op, ast.Eq) else not r
     return None
 
 
-def _reachable_keys(fi, g, all_keys):
+def _module_const_sets(model, fi):
+    """{name: set of constants} for the module-level tuples/lists/sets/frozensets of constants of fi's module."""
+    out = {}
+    mi = model.modules.get(fi.module)
+    if mi is None:
+        return out
+    for name, sts in mi.assigns.items():
+        if len(sts) != 1 or not isinstance(sts[0], ast.Assign):
+            continue
+        v = sts[0].value
+        if isinstance(v, ast.Call) and (call_name(v) or '') in ('frozenset', 'set', 'tuple') and len(v.args) == 1:
+            v = v.args[0]
+        if isinstance(v, (ast.Tuple, ast.List, ast.Set)) and v.elts and all(isinstance(e, ast.Constant) for e in v.elts):
+            out[name] = {e.value for e in v.elts}
+    return out
+
+
+def _reachable_keys(fi, g, all_keys, model=None):
     """Keys of table g that can reach the `g[key]` lookup in fi: the enclosing tests (through local boolean names,
     and/or/not, `in (...)`, `==`) are evaluated per key; a key is excluded when some enclosing test is definitely
     against it."""
@@ -343,7 +363,8 @@ def _reachable_keys(fi, g, all_keys):
             for key in all_keys:
                 ok = True
                 for t, pol in tests:
-                    v = _key_test(t, keyvar, key, {k: v for k, v in local_defs.items() if k != keyvar})
+                    v = _key_test(t, keyvar, key, {k: v for k, v in local_defs.items() if k != keyvar}, 0,
+                                  _module_const_sets(model, fi) if model is not None else None)
                     if v is not None and v != pol:
                         ok = False
                         break
